@@ -36,3 +36,20 @@ prop("C03",
      assumptions=["observers do not mutate the observer list or raise while being notified (precondition)",
                   "temperature items: the decoded-value comparison is proved in C14 (float injectivity); here all non-temperature shapes"],
      explanation="replace_status_block_segment + status_block_changed proved per accessor shape: notify exactly once with (old,new) iff decoded value differs, observer sees the new block; symbolic block/offset/patch incl. straddling patches")
+
+prop("C14",
+     level="proof",
+     budget={"quick": 240, "thorough": 900},
+     assumptions=["the stored word enters through the assumed contract of the base Word read (any 16-bit word); the base read/write themselves are proved in C02",
+                  "IEEE-754 binary64 with round-to-nearest-even for / * - + and truncation for int(): z3 FloatingPoint theory",
+                  "device range of a temperature: 0..3640 C / 32..6585 F (word 0..65535); values outside make struct.pack raise and are outside the statement"],
+     explanation="raw/18 and (raw+320)/10 both ways in IEEE double: exact read-back for all 65536 words x 2 units x 2 write paths (quick); within-one-step and monotonicity over all doubles in range (thorough); unit symbol/limits and the operation decision table")
+
+prop("C04",
+     level="proof",
+     ground=[tables.c04_regex_bounded],
+     budget={"quick": 60, "thorough": 300},
+     bounded=["GeckoPacketProtocolHandler._extract_packet_parts (re.search): bounded stand-in c04_packet_regex_bounded -- every string of <= 4 tokens over {8 frame delimiters, newline, 'x', 'STATV'} in each of the three fields, real function, native; callers use its ASSUMED contract"],
+     assumptions=["identifiers contain no frame delimiter / separator (SPA.. / IOS.. style); spa identifiers start with 'SPA'",
+                  "Python's regular expression engine is outside the verifier: see bounded"],
+     explanation="per message constructor: layout vs literal in.touch2 spec, decode(encode)=id via the real peer handle, exclusivity over all 15 standard handler classes, src/dst swap; config-file message ground over all shipped platform x cfg x log combinations")
